@@ -801,10 +801,11 @@ def tla_funcs(funcs):
 
 # ------------------------------------------------------------------------------ validation by TLC
 JVM = "-Xss64m -Xmx6g -XX:ParallelGCThreads=4"
-NJVM = 4
+NPROC = max(1, int(os.environ.get("C02_NPROC", "16")))     # development on a shared machine: C02_NPROC=4
+NJVM = max(1, NPROC // 4)
 CHAINS = 4
 CHUNK = 6000          # cases per file written by a worker
-GROUP = 36000         # cases per TLC process
+GROUP = int(os.environ.get("C02_GROUP", "36000"))         # cases per TLC process
 
 
 def merge_files(paths, out):
@@ -845,7 +846,7 @@ def accept_files(ctx, files, label, keep=2):
         merge_files(ps, merged)
         small = n < 200
         res = tlc.accept_batch("PyFlow", merged, ctx.scratch, cfg="PyFlow1.cfg" if small else "PyFlow.cfg",
-                               workers=1 if small else CHAINS, timeout=6000, env={"JAVA_TOOL_OPTIONS": JVM})
+                               workers=1 if small else min(CHAINS, NPROC), timeout=20000, env={"JAVA_TOOL_OPTIONS": JVM})
         os.unlink(merged)
         if res.distinct not in (max(n, 1 if small else CHAINS), n + 1):
             raise MachineryFailure("PyFlow visited %d states for %d cases" % (res.distinct, n))
@@ -991,7 +992,7 @@ def selftest(ctx, paths, rejects):
     ctx.cov["selftest_corruption_kinds"] = kinds
     path = os.path.join(ctx.scratch, "c02_corrupt.json")
     json.dump(bad, open(path, "w"))
-    res = tlc.accept_batch("PyFlow", path, ctx.scratch, cfg="PyFlow.cfg", workers=CHAINS, env={"JAVA_TOOL_OPTIONS": JVM})
+    res = tlc.accept_batch("PyFlow", path, ctx.scratch, cfg="PyFlow.cfg", workers=min(CHAINS, NPROC), env={"JAVA_TOOL_OPTIONS": JVM})
     ctx.add_tlc(res, "PyFlow acceptor (corrupted recordings)")
     rejected = {r["id"] for r in res.rejects}
     missed = [c["id"] for c in bad if c["id"] not in rejected]
@@ -1025,7 +1026,7 @@ def model_check_start(ctx, pool):
     for label, k, deep in runs:
         cfg = mc_cfg(ctx, "d%d" % deep, k, deep)
         futs.append((label + ", K=%d" % k, None,
-                     pool.submit(tlc.run, "PyFlowMC", cfg, ctx.scratch, workers=8, timeout=3000,
+                     pool.submit(tlc.run, "PyFlowMC", cfg, ctx.scratch, workers=max(1, NPROC // 2), timeout=6000,
                                  env={"JAVA_TOOL_OPTIONS": "-Xss64m -Xmx6g -XX:ParallelGCThreads=4"})))
     return futs
 
@@ -1079,31 +1080,35 @@ def main(ctx):
         ctx.findings, ctx.known_hits = [ctx.findings[i] for i in hits], {j: ctx.known_hits[i] for j, i in enumerate(hits)}
         return
     # (M) - started here, collected after the recording phase
-    pool = ThreadPoolExecutor(max_workers=4)
-    mc = model_check_start(ctx, pool) if not os.environ.get("C02_SKIP_MC") else []
+    # (with C02_NPROC < 16 the two TLC runs come one after the other, after the acceptor, to keep the process cap)
+    pool = ThreadPoolExecutor(max_workers=2 if NPROC >= 16 else 1)
+    skip_mc = bool(os.environ.get("C02_SKIP_MC"))
+    mc = model_check_start(ctx, pool) if NPROC >= 16 and not skip_mc else []
     # (T)
-    nw = 16
+    nw = 16                                     # number of slices (fixed: the explored set does not depend on NPROC)
     scale = float(os.environ.get("C02_SCALE", "1"))
     jobs = []
     for k in range(nw):
         subs = [
             {"kind": "family", "level": 1, "parts": family_parts(1), "frac": min(1.0, scale), "of": nw, "slice": k, "seed": ctx.seed},
-            {"kind": "family", "level": 2, "parts": family_parts(2), "frac": min(1.0, ctx.pick(0.04, 1.0) * scale), "of": nw,
+            {"kind": "family", "level": 2, "parts": family_parts(2), "frac": min(1.0, ctx.pick(0.03, 1.0) * scale), "of": nw,
              "slice": k, "seed": ctx.seed + 1 + k},
-            {"kind": "sample", "level": 3, "count": int(ctx.pick(60, 4000) * scale), "seed": ctx.seed * 1000 + 500 + k, "maxpaths": 6},
-            {"kind": "random", "seed": ctx.seed * 1000 + k, "count": int(ctx.pick(200, 8000) * scale), "depth": 6},
+            {"kind": "sample", "level": 3, "count": int(ctx.pick(40, 2000) * scale), "seed": ctx.seed * 1000 + 500 + k, "maxpaths": 6},
+            {"kind": "random", "seed": ctx.seed * 1000 + k, "count": int(ctx.pick(150, 5000) * scale), "depth": 6},
         ]
         if k == 0 and witness_cases(ctx):
             subs.append({"kind": "explicit", "cases": witness_cases(ctx)})
         jobs.append({"subs": subs, "out": os.path.join(ctx.scratch, "c02_cases_%d" % k)})
     t0 = time.time()
-    results = run_workers("harness.drivers.c02", "work", jobs, ctx.scratch, timeout=6000)
+    results = run_workers("harness.drivers.c02", "work", jobs, ctx.scratch, nproc=NPROC, timeout=20000)
     ctx.cov["workers_wall_s"] = round(time.time() - t0, 1)
     t0 = time.time()
     files = [f for r in results for f in r["files"]]
     rejects, kept = accept_files(ctx, files, "main")
     ctx.cov["acceptor_phase_wall_s"] = round(time.time() - t0, 1)
     t0 = time.time()
+    if NPROC < 16 and not skip_mc:
+        mc = model_check_start(ctx, pool)
     model_check_finish(ctx, mc)
     pool.shutdown()
     ctx.cov["mc_wait_after_acceptor_s"] = round(time.time() - t0, 1)
@@ -1115,7 +1120,7 @@ def main(ctx):
         "cpython_recordings_accepted": tot["same"] + tot["differ"], "pyscript_recordings_rejected": len(rejects),
         "discarded_syntax": tot["syntax"], "discarded_too_long": tot["toolong"],
         "evaluations": tot["runs"], "distinct_nontrivial": len(nontrivial), "distinct_skeletons": len(shapes),
-        "rule": ("programs = bounded-exhaustive family of nesting 1 (all), nesting 2 (all in thorough, seeded 4% sample in quick) "
+        "rule": ("programs = bounded-exhaustive family of nesting 1 (all), nesting 2 (all in thorough, seeded 3% sample in quick) "
                  "and a seeded sample of nesting 3, over {if, while, for (+else), try-except / try-finally / "
                  "try-except-else-finally, with 1-2 managers, call} x every placement of {fall-through, raise E1/E3, bare raise, "
                  "assert, return, break, continue} in every slot x 3 contexts (function, loop body, module) x all oracle paths "
